@@ -53,6 +53,8 @@ def body_plan(kind):
         return [('write', 'half-of-the-new-content\n'), ('flush',), ('abort', 'SystemExit'), ('write', 'never\n')]
     if kind == 'kbint':
         return [('write', 'X' * BIG), ('abort', 'KeyboardInterrupt')]
+    if kind == 'closes':         # the body closes the part file itself (a nested `with f:`) and ends normally
+        return [('write', 'written-then-closed-by-the-body\n'), ('close',)]
     raise AssertionError(kind)
 
 
@@ -97,6 +99,12 @@ def configs(tier):
         if c['file_perms'] is None and c['body'] == 'one':
             for b in ('sysexit', 'kbint'):
                 out.append(dict(c, body=b))
+    # the body closes the part file itself; a destination name at the file-name length limit (no room for ".part")
+    for c in base:
+        if c['file_perms'] is None and c['body'] == 'one':
+            out.append(dict(c, body='closes'))
+            if c['overwrite']:
+                out.append(dict(c, dest_name='n' * 251 + '.txt'))
     # two savers of one destination whose with-blocks overlap (the second one is refused, and retried)
     for c in base:
         if c['file_perms'] is None and c['body'] in ('one', 'big') and c['overwrite']:
@@ -111,7 +119,8 @@ def configs(tier):
 class Scenario:
     def __init__(self, cfg, d):
         self.cfg, self.d = cfg, d
-        self.dest = os.path.join(d, 'dest.txt')
+        self.name = cfg.get('dest_name') or 'dest.txt'
+        self.dest = os.path.join(d, self.name)
         self.plan = body_plan(cfg['body'])
         self.aborts = any(st[0] == 'abort' for st in self.plan)
         # complete contents the destination may legitimately show; none if the body never completes
@@ -123,7 +132,7 @@ class Scenario:
         self.other_dir = cfg.get('other_dir')
 
         self.initial = self.initial_state()
-        ent = self.initial.get('dest.txt')
+        ent = self.initial.get(self.name)
         self.old = None if ent is None else ent[1]
 
     def initial_state(self):
@@ -133,11 +142,11 @@ class Scenario:
             return {k: (v[0], v[1].encode('latin-1'), v[2]) for k, v in cfg['initial'].items()}
         st = {}
         if cfg['dest_present']:
-            st['dest.txt'] = (OLD_MODE, OLD, 0)
+            st[self.name] = (OLD_MODE, OLD, 0)
         if cfg.get('part') == 'stale':
-            st['dest.txt.part'] = (0o600, b'STALE-PART-FROM-AN-EARLIER-SAVE', 1)
+            st[self.name + '.part'] = (0o600, b'STALE-PART-FROM-AN-EARLIER-SAVE', 1)
         elif cfg.get('part') == 'hardlink':
-            st['dest.txt.part'] = (OLD_MODE, OLD, 0)
+            st[self.name + '.part'] = (OLD_MODE, OLD, 0)
         return st
 
     def prepare(self):
@@ -176,6 +185,8 @@ class Scenario:
                         f.flush()
                     elif st[0] == 'seek':
                         f.seek(st[1])
+                    elif st[0] == 'close':
+                        f.close()
                     elif st[0] == 'abort':
                         raise {'SystemExit': SystemExit, 'KeyboardInterrupt': KeyboardInterrupt}[st[1]]('leaving')
                     env.decide({'name': 'checkpoint', 'key': ('body', i)})
@@ -255,7 +266,7 @@ def norm_snap(snap):
 
 def dest_ok(snap, sc):
     """dest content in {old or absent, complete new}; returns None if ok else description."""
-    ent = snap.get('dest.txt')
+    ent = snap.get(sc.name)
     if ent is None:
         return None if sc.old is None else 'destination vanished'
     data = ent[1]
@@ -336,7 +347,7 @@ def durable_states(log, k, sc):
             elif m[0] == 'rename':
                 if m[1] in ns:
                     ns[m[2]] = ns.pop(m[1])
-        fid = ns.get('dest.txt')
+        fid = ns.get(sc.name)
         if fid is None:
             states.append((j, None, None))
             continue
@@ -360,9 +371,16 @@ def durable_states(log, k, sc):
     return states
 
 
-def check_log_order(log, sc, bad):
+def check_log_order(log, sc, bad, exc=None):
     if sc.cfg.get('interleaved') or sc.cfg.get('part_other_fs'):
         return          # two savers / a foreign part path: the single-save ordering rules below do not apply
+    if (sc.cfg.get('dest_name') or sc.cfg['body'] == 'closes') and exc is not None:
+        # a refused save: nothing may have been published
+        for ev in log:
+            if ev['name'] in ('rename', 'replace', 'link') and not str(ev.get('result', '')).startswith('errno') \
+                    and len(ev['args']) > 1 and ev['args'][1] == sc.dest:
+                bad('order', 'publishing call by a save that raised', 'no rename/link onto the destination', ev['name'])
+        return
     part = sc.dest + '.part'
     idx = {n: [] for n in ('raw_write', 'fsync', 'raw_close', 'publish', 'open_part')}
     for i, ev in enumerate(log):
@@ -449,16 +467,18 @@ def run_config(task):
     t.add('events', len(env.log))
     t.add('crash_points', npoints + 1)
     # 3. normal completion
-    fdest = final.get('dest.txt', (None, None))[1]
+    fdest = final.get(sc.name, (None, None))[1]
     if sc.aborts:
         # the body left through SystemExit/KeyboardInterrupt: that exception reaches the caller, nothing is published
         if not isinstance(exc, (SystemExit, KeyboardInterrupt)):
             bad('normal', 'exception of an aborted body', 'SystemExit/KeyboardInterrupt propagates', repr(exc))
         if fdest != sc.old:
             bad('normal', 'destination after an aborted body', sc.old, fdest)
-    elif cfg.get('part_other_fs'):
-        # a rename across file systems cannot be atomic: refusing (OSError) with the destination untouched, or completing
-        ok = (isinstance(exc, OSError) and fdest == sc.old) or (exc is None and fdest == sc.new)
+    elif cfg.get('part_other_fs') or cfg.get('dest_name') or cfg['body'] == 'closes':
+        # a rename across file systems cannot be atomic; a 255-character name leaves no room for the part file's suffix; a
+        # part file closed by the body cannot be flushed and synced any more: refusing (an exception) with the destination
+        # untouched is right, so is completing the save properly - a half-way result is not
+        ok = (isinstance(exc, Exception) and fdest == sc.old) or (exc is None and fdest == sc.new)
         if not ok:
             bad('normal', 'part file on another file system', 'OSError and destination untouched, or a completed save',
                 (repr(exc), fdest if fdest is None else fdest[:40]))
@@ -467,13 +487,13 @@ def run_config(task):
     else:
         if fdest not in sc.news:
             bad('normal', 'destination content after normal exit', sc.news[0][:60], fdest)
-        left = sorted(k for k in final if k != 'dest.txt')
+        left = sorted(k for k in final if k != sc.name)
         if left:
             bad('normal', 'files left behind', [], left)
     # 1. process death at every point
     for i in range(npoints + 1):
         snap = snaps.get(i, final) if i < npoints else final
-        t.count(nontrivial=('dest.txt.part' in snap or (i > 0 and snap != snaps.get(0))),
+        t.count(nontrivial=(sc.name + '.part' in snap or (i > 0 and snap != snaps.get(0))),
                 sample={'config': cfg, 'crash_before_point': i, 'event': env.points[i][2] if i < npoints else 'end'})
         why = dest_ok(snap, sc)
         if why:
@@ -500,7 +520,7 @@ def run_config(task):
     t.evaluations += nstates
     t.nontrivial += nstates
     # log order
-    check_log_order(env.log, sc, lambda *a: bad(*a))
+    check_log_order(env.log, sc, lambda *a: bad(*a), exc)
     # conformance (a): fork-kill at every point
     if do_fork:
         for i in range(npoints):
@@ -643,7 +663,7 @@ def strace_run(task):
                                       'replace')]
     want = ['rename' if n == 'replace' else n for n in want]
     final = norm_snap(envfaults.snapshot(d))
-    fdest = final.get('dest.txt', (None, None))[1]
+    fdest = final.get(sc.name, (None, None))[1]
     if cfg.get('part_other_fs'):
         # the part file lives outside the traced directory: only the rule about the destination path is checked
         if not (fdest == sc.old or fdest == sc.new):
